@@ -174,7 +174,7 @@ def judge(case, raw, cmpr, model):
                 except ValueError:
                     got = rest
                 what = 'differs: ' + K.first_diff(K.text_of(d, 'T0'), got)
-            bad.append(('read-into-used-context-differs', '%s: MIR_read of the written bytes into a context with the history `%s` '
+            bad.append(('read-into-used-context-differs', '%s: MIR_read of the written bytes into a context with the history `%s` (+write: then written module by module from it and read into a fresh context) '
                         '(s = scan of the text, S = scan of a fixed text with data items, b = module built through the API, r = the '
                         'same read before, w = write, o = output) %s' % (tag, hist, what)))
         if d.get('RW', '=') != '=':
@@ -349,7 +349,7 @@ def replay(chk, path):
     r1, r2, rm = run_cases(chk, exes, [case])
     bad = judge(case, r1[0], r2[0], rm[0])
     print('case:', case)
-    for k in ('build', 'TS', 'SS', 'W2', 'RB', 'T1', 'S1', 'LI0', 'LI1', 'LIM', 'RW', 'WF', 'WH', 'RM', 'TM', 'TN1', 'TR1', 'X0', 'X1', 'FR0', 'FR1', 'CRASH'):
+    for k in ('build', 'TS', 'SS', 'W2', 'RB', 'T1', 'S1', 'LI0', 'LI1', 'LIM', 'RW', 'WF', 'WH', 'RM', 'TM', 'TN1', 'TR1', 'X0', 'X1', 'FR0', 'FR1', 'UR', 'URN', 'CRASH'):
         print('  raw.%s = %s   compressed.%s = %s' % (k, r1[0].get(k, '-')[:100], k, r2[0].get(k, '-')[:100]))
     for s, w in bad:
         print('FAIL', s, w)
